@@ -28,6 +28,12 @@ type Res struct {
 	U   bool
 	Amb bool
 	Why string
+	// EmptyElem, when set on an Amb result that is an empty sequence, is the
+	// element type the result must have if it is a list (or set) rather than
+	// an empty tuple: the type the per-element steps of a splat give for the
+	// source's element type. No reading of the specification gives an empty
+	// list of anything else.
+	EmptyElem cty.Type
 }
 
 func val(v cty.Value) Res   { return Res{V: v} }
@@ -417,7 +423,14 @@ func evalSplat(e *ex.E, s *Scope) Res {
 			}
 		}
 		if len(out) == 0 && len(perElem) > 0 {
-			return unspec("element type of an empty splat result")
+			// nothing is evaluated; only the element type of a list-kind
+			// result is determined, and only where the steps apply to the
+			// element type without looking at a value
+			et, ok := stepTypes(ty.ElementType(), perElem)
+			if !ok || len(after) > 0 {
+				return unspec("element type of an empty splat result")
+			}
+			return Res{V: cty.EmptyTupleVal, Amb: true, EmptyElem: et}
 		}
 	}
 	res := Res{V: cty.TupleVal(out), Amb: amb || src.Amb}
@@ -433,6 +446,19 @@ func evalSplat(e *ex.E, s *Scope) Res {
 		res.Amb = amb
 	}
 	return res
+}
+
+// stepTypes applies attribute steps to a type. ok is false where a step's
+// result type depends on a value or the step cannot be applied (whether an
+// empty splat reports that is not specified).
+func stepTypes(ty cty.Type, steps []ex.Step) (cty.Type, bool) {
+	for _, st := range steps {
+		if st.K != "attr" || !ty.IsObjectType() || !ty.HasAttribute(st.S) {
+			return cty.NilType, false
+		}
+		ty = ty.AttributeType(st.S)
+	}
+	return ty, true
 }
 
 type kv struct{ k, v cty.Value }
